@@ -1,6 +1,7 @@
 package main
 
 import (
+	"bytes"
 	"context"
 	"fmt"
 	"net"
@@ -442,4 +443,69 @@ func c10ScriptedProofs() {
 	}
 	run.Add(int64(n), int64(n), int64(n), int64(n))
 	run.Extra["scripted_proof_runs"] = n
+}
+
+// readHost answers RPCReadSector by hand with the leaf-aligned range covering the request, correctly proven.
+// For a request that is not leaf-aligned that is more (or other) data than was asked for.
+type readHost struct {
+	hostKey types.PrivateKey
+}
+
+func (h *readHost) DialStream(ctx context.Context) (net.Conn, error) {
+	c, s := net.Pipe()
+	go func() {
+		defer s.Close()
+		s.SetDeadline(time.Now().Add(10 * time.Second))
+		if _, err := proto4.ReadID(s); err != nil {
+			return
+		}
+		var req proto4.RPCReadSectorRequest
+		if proto4.ReadRequest(s, &req) != nil {
+			return
+		}
+		start, end := req.Offset/proto4.LeafSize, (req.Offset+req.Length+proto4.LeafSize-1)/proto4.LeafSize
+		segStart, segEnd := proto4.SectorSubtreeRange(start, end)
+		cache := proto4.CachedSectorSubtrees(&realSector)
+		proof := proto4.BuildSectorProof(realSector[segStart*proto4.LeafSize:segEnd*proto4.LeafSize], start, end, cache)
+		data := realSector[start*proto4.LeafSize : end*proto4.LeafSize]
+		if proto4.WriteResponse(s, &proto4.RPCReadSectorResponse{Proof: proof, DataLength: uint64(len(data))}) != nil {
+			return
+		}
+		s.Write(data)
+	}()
+	return c, nil
+}
+func (h *readHost) FrameSize() int           { return 1440 }
+func (h *readHost) PeerKey() types.PublicKey { return h.hostKey.PublicKey() }
+func (h *readHost) Close() error             { return nil }
+
+func c10ScriptedRead() {
+	initSector()
+	w := c10World()
+	defer w.Close()
+	token := proto4.NewAccountToken(rhpx.Key("c10-account"), w.HostKey.PublicKey())
+	n := 0
+	for _, rng := range [][2]uint64{{0, 64}, {64, 128}, {32, 32}, {32, 96}, {16, 48}, {96, 32}, {0, 32}, {8, 8}} {
+		h := &readHost{hostKey: w.HostKey}
+		var buf bytes.Buffer
+		var err error
+		var pan any
+		func() {
+			defer func() { pan = recover() }()
+			_, err = rhp.RPCReadSector(cctx(), h, w.Prices, token, &buf, realSectorRoot, rng[0], rng[1])
+		}()
+		n++
+		what := fmt.Sprintf("RPCReadSector(offset %d, length %d) against a host answering with the correctly proven leaf-aligned range that covers it", rng[0], rng[1])
+		run.Distinct("scripted-read", rng, err == nil, pan != nil)
+		switch {
+		case pan != nil:
+			run.Violate("c10:renter-panics-on-host-answer:read", what+fmt.Sprintf(": the client panicked: %v", pan), nil)
+		case err == nil && !bytes.Equal(buf.Bytes(), realSector[rng[0]:rng[0]+rng[1]]):
+			run.Violate("c10:success-not-bound:read:other-bytes-delivered", fmt.Sprintf("%s reported success and delivered %d bytes that are not the %d requested bytes", what, buf.Len(), rng[1]), map[string]any{"offset": rng[0], "length": rng[1]})
+		case err != nil && rng[0]%proto4.LeafSize == 0 && rng[1]%proto4.LeafSize == 0:
+			run.Violate("c10:honest-scripted-host-rejected", what+": an honest aligned answer was rejected: "+err.Error(), nil)
+		}
+	}
+	run.Add(int64(n), int64(n), int64(n), int64(n))
+	run.Extra["scripted_read_runs"] = n
 }
